@@ -631,11 +631,26 @@ def check_accept(rep, project):
     res = set()
     inside = {id(x) for x in ast.walk(w)}
     outside = {x.id for x in ast.walk(view) if isinstance(x, ast.Name) and id(x) not in inside}   # names the loop shares
+    def _matching_helper(c) -> bool:
+        """a call of a helper of the package that hands back the library's matching for one probe, or None when it is not
+        perfect: every `return` gives None or a name bound to `....maximum_matching()`"""
+        if not isinstance(c, ast.Call):
+            return False
+        g = project.functions.get(project.resolve(fi.module, c.func, ()) or "")
+        if g is None or not isinstance(g.node, (ast.FunctionDef, ast.AsyncFunctionDef)):
+            return False
+        mm = {t.id for a in ast.walk(g.node) if isinstance(a, ast.Assign) and any(
+            isinstance(x, ast.Call) and isinstance(x.func, ast.Attribute) and x.func.attr == "maximum_matching" for x in ast.walk(a.value))
+            for t in a.targets if isinstance(t, ast.Name)}
+        rets = [r for r in ast.walk(g.node) if isinstance(r, ast.Return)]
+        vals = [r.value for r in rets]
+        return bool(mm) and any(isinstance(v, ast.Name) and v.id in mm for v in vals) and all(
+            v is None or (isinstance(v, ast.Constant) and v.value is None) or (isinstance(v, ast.Name) and v.id in mm) for v in vals)
     for st in w.body:
         for n in ast.walk(st):
             if isinstance(n, ast.Assign) and len(n.targets) == 1 and isinstance(n.targets[0], ast.Name):
                 if any(isinstance(c, ast.Call) and isinstance(c.func, ast.Attribute) and c.func.attr == "maximum_matching"
-                       for c in ast.walk(n.value)) or (
+                       for c in ast.walk(n.value)) or _matching_helper(n.value) or (
                         isinstance(n.value, (ast.Name, ast.IfExp)) and any(isinstance(x, ast.Name) and x.id in res for x in (
                             [n.value] if isinstance(n.value, ast.Name) else [n.value.body, n.value.orelse]))
                         and n.targets[0].id not in outside):
